@@ -77,7 +77,14 @@ pub fn generate(seed: u64, tier: &str, sink: &mut Sink) {
         let spec = gen_valid(&mut rng, framing as u64, big);
         let wire = spec.wire();
         let head_len = spec.head_bytes().len();
-        let (segs, segname) = segment(&mut rng, &wire, &interesting_offsets(&wire, head_len));
+        let (mut segs, segname) = segment(&mut rng, &wire, &interesting_offsets(&wire, head_len));
+        // the usual keep-alive server does not close the connection behind the response, it goes silent:
+        // where the framing itself says where the body ends (chunked, Content-Length) the whole payload and
+        // the end of the body are delivered without waiting for the peer (seed C19-seed7)
+        let keep_alive = !matches!(spec.body, BodySpec::Close(_)) && rng.chance(1, 3);
+        if keep_alive {
+            segs.push(crate::script::Seg::Pause);
+        }
         let payload_len = spec.payload().len();
         let (reads, rname) = if rng.chance(1, 12) {
             (Reads::Text(8192), "text_utf8()")
@@ -132,6 +139,7 @@ pub fn generate(seed: u64, tier: &str, sink: &mut Sink) {
                 format!("reads={}", rname),
                 size_bucket.to_string(),
                 format!("trail={}", !spec.trail.is_empty()),
+                format!("then={}", if keep_alive { "silence" } else { "close" }),
                 format!("trailers={}", match &spec.body { BodySpec::Chunked { trailers, .. } => match trailers.len() { 0 => "0", 1..=5 => "1-5", _ => ">5" }, _ => "-" }),
             ],
             op: case.op_line(),
